@@ -99,6 +99,7 @@ type Explorer struct {
 	active  int
 	res     *Result
 	vioSeen map[string]int
+	freshVio int
 	stop    bool
 	start   time.Time
 	tier    int
@@ -188,6 +189,11 @@ func (ex *Explorer) worker(id int) {
 			ex.res.Samples = append(ex.res.Samples, in.samplePath())
 		}
 		if ex.cfg.MaxPaths > 0 && ex.res.Paths >= ex.cfg.MaxPaths && len(ex.work) > 0 {
+			ex.res.Truncated = true
+			ex.stop = true
+		}
+		if ex.freshVio > 0 && time.Since(ex.start) > 3*time.Minute && len(ex.work) > 0 {
+			// counterexamples are in hand: do not spend the whole budget on a tree that is already refuted
 			ex.res.Truncated = true
 			ex.stop = true
 		}
@@ -601,5 +607,8 @@ func (in *Interp) violation(label, msg string, _ bool, siteOpt ...string) {
 		Path: append([]int64{}, in.decisions64...), Notes: append([]string{}, in.pathNotes...), Modelled: ok, Sched: append([]string{}, in.sched...)}
 	ex.mu.Lock()
 	ex.res.Violations = append(ex.res.Violations, v)
+	if known == "" {
+		ex.freshVio++
+	}
 	ex.mu.Unlock()
 }
